@@ -119,7 +119,8 @@ theorem dispatch_older (s : MSt) (h : Str) (attrsD : List (Str × Str)) (s' : MS
               rw [← hd]; exact newEntry_older s _ rfl rfl
     · split at hd
       · cases hd
-      · split at hd
+      · simp only at hd
+        split at hd
         · injection hd with hd; exact ⟨[], by rw [← hd]; rfl⟩
         · injection hd with hd; exact ⟨[], by rw [← hd, (setContext_older _ _ _).1]; simp⟩
 
